@@ -35,11 +35,11 @@ type c04Case struct {
 	// every field of the message it was given)
 	HandlerCalls string `json:"handlerCalls,omitempty"`
 	// Outbound: number of QoS2 publishes issued by another goroutine while the inbound sequence is processed
-	Outbound int       `json:"outbound,omitempty"`
+	Outbound int `json:"outbound,omitempty"`
 	// End: "" the peer waits for the marker; "eof" / "eofWithData": right after its last packet the peer finishes sending
 	// (half-close; the client can still write its acknowledgements), the io.EOF arriving after resp. together with the last bytes
-	End string `json:"end,omitempty"`
-	Steps    []c04Step `json:"steps"`
+	End   string    `json:"end,omitempty"`
+	Steps []c04Step `json:"steps"`
 }
 
 var c04IDs = []int{1, 2, 3, 7, 255, 256, 65535}
